@@ -212,7 +212,8 @@ def build(spec):
             if '~' in f_:
                 tr2.append('tilde-needle')
             nr = needle_ref(f_, nvia)
-            form = f'=SEARCH({nr},{T})' if s is None else f'=SEARCH({nr},{T},{s})'
+            # every third start position is written as a computation (its value arrives as a float)
+            form = f'=SEARCH({nr},{T})' if s is None else f'=SEARCH({nr},{T},{s})' if (s + len(qs)) % 3 else f'=SEARCH({nr},{T},{2 * s}/2)'
             case_differs = f_.lower() in t.lower() and f_ not in t
             qs.append(Q(form, exp, 'SEARCH:' + ('wild' if wild else 'plain') + (':start' if s else ''),
                         True, base_tags + ['needle:' + ('wild' if wild else 'plain'), 'needle-via:' + nvia] +
